@@ -32,7 +32,7 @@ func printManifest() {
 		}
 		ref := p.DesignRef
 		if ref == "" {
-			ref = "DESIGN.md section 3, " + id
+			ref = "DESIGN.md section 9 (rules as built), section 3 (plan), " + id
 		}
 		checks = append(checks, map[string]any{
 			"property_id":         id,
@@ -82,7 +82,7 @@ func printManifest() {
 		}},
 		"checks":         checks,
 		"not_applicable": na,
-		"notes":          "All checks are static: they load /repo's working tree with go/packages on every run and never execute repository code. Violations not listed in /verif/known_findings.jsonl exit 1 with a VIOLATION line; undecidable shapes (renamed anchors, unrecognised idioms, type errors) also fail.",
+		"notes":          "All checks are static: they load /repo's working tree with go/packages on every run and never execute repository code. quick = the property's rules on the default build configuration; thorough = the same rules re-derived additionally under GOARCH=386 and -tags synctests (every obligation records its configuration). Violations not listed as `known` in /verif/known_findings.jsonl exit 1 with a VIOLATION line; undecidable shapes (renamed anchors, unrecognised idioms, type errors) also fail. /repo carries only unguarded `fix:` commits for the genuine defects the checks found (DESIGN.md section 4; each recorded as a `fixed` line in known_findings.jsonl); there are no hook commits. Statements without effect on any property (blank assignments, logger calls) are ignored by every rule.",
 	}
 	enc := json.NewEncoder(os.Stdout)
 	enc.SetIndent("", " ")
